@@ -3,6 +3,7 @@
 # usage: seedtest.sh <out-dir containing patch.diff, meta.json, demo> <worktree> "<checks, e.g. C05 C06>"
 set -u
 OUT=$1; WT=$2; CHECKS=$3
+export VERIF_TMP=/tmp/lead-work
 export GOFLAGS=-mod=mod GOPROXY=off GOSUMDB=off GOTOOLCHAIN=local
 DEMO_PATH=$(python3 -c "import json;print(json.load(open('$OUT/meta.json'))['demo_path'])")
 DEMO_CMD=$(python3 -c "import json;print(json.load(open('$OUT/meta.json'))['demo_cmd'])")
